@@ -6,7 +6,7 @@ namespace UsualProofs.C20
 open Usual.C20
 
 macro "step_auto" : tactic => `(tactic|
-  ((try simp only [publish, notifyB]) <;>
+  ((try simp only [publish, notifyB] at *) <;>
     grind [→ sExpect_owns, → wExpect_owns, sExpect, wExpect, SPc.owns, WPc.owns, SPc.holdsQ, WPc.holdsQ,
       Prog, St, upd_apply, upd2_apply, Cfg.fixed, Act.touchesQueue]))
 
